@@ -13,16 +13,19 @@ import pickle
 ID = "C22"
 LEVEL = "exploration"
 RULE = ("(N) each of the 136 numeric operators (MVP + sign-extension + saturating truncation) as a one-instruction function on the full product of "
-        "the boundary alphabet of its operand types (ints: V7 quick / V13 thorough; floats: 23 quick / 40 thorough bit patterns incl. both NaN "
+        "the boundary alphabet of its operand types (ints: V7 quick / V13 thorough; floats: 23 (f32) / 28 (f64) quick, 40 / 52 thorough bit patterns incl. both NaN "
         "signs, -0.0, denormals, ties, 2^31/2^32/2^63/2^64 neighbours); (M) 14 loads and 9 stores x offset immediates {0,4,(65535,0xffffffff)} x "
         "edge addresses {0..3,5,page-9..page+1,-1,-2^31} with a memory snapshot after every store, memory.size/grow sequences with and without "
-        "max; (C) every control skeleton of nesting <=1 (quick) / <=2 (thorough) on all condition-bit vectors x index {0,1,2,3,4,-1}; (X) 14 "
+        "max; (C) every control skeleton of nesting <=1 (quick) / <=2 (thorough) on all condition-bit vectors x index {0,1,2,3,4,-1}; (X) 15 "
         "hand-built call/global/select/start/segment modules; x targets {python, native}; distinct non-trivial = distinct (operator, V8 outcome)")
 ASSUMPTIONS = [
     "reference engine: node v20 / V8 on the binary produced by the own encoder (wasmgen.encode), which V8 validates",
     "floats cross the boundary as bit patterns; a NaN result equals any NaN of the same type; traps are compared as trap / no trap",
     "a ppci trap is any Python exception raised by the exported callable; a process-killing signal is not accepted as a trap",
-    "native code runs in a forked child (one per module, plus one per call that V8 traps on) because ppci native code can kill the process",
+    "native code runs in a forked child (one per module, plus one per run of calls that V8 traps on) because ppci native code can kill the "
+    "process; at most 3 process-killing calls per (operator family, trap kind, target, module) are executed, the rest is counted as capped",
+    "state (globals/memory) is compared after calls on which both sides agree about trapping; after a V8-trapping call only when the call starts "
+    "from a reset state (control skeletons)",
     "NotImplementedError from ppci = unsupported feature, counted and listed, not a violation",
 ]
 CLAIM = {"text": "for every enumerated (module, invocation) both ppci execution targets return V8's result bits, trap exactly when V8 traps, "
